@@ -65,7 +65,7 @@ Next1 ==
                [] OTHER -> d' = d /\ NoFlag)
        [] k = "Hang" -> Flag(<<"Hang">>) /\ d' = d
        [] k = "Crash" -> Flag(<<"Crash">>) /\ d' = d
-       [] k \in {"End", "Sched", "CamNoData", "CamFail", "CamSetFail", "MonMap", "MonUnmap", "Api2", "DevOpenFail"} -> d' = d /\ NoFlag
+       [] k \in {"End", "Sched", "CamNoData", "CamFail", "CamSetFail", "AvgSet", "MonMap", "MonUnmap", "Api2", "DevOpenFail"} -> d' = d /\ NoFlag
        [] OTHER -> Flag(<<"UnknownEvent">>) /\ d' = d
 Finish == /\ l = Len(Tr) + 1 /\ ~done /\ done' = TRUE
           /\ PrintT(<<"VERDICT", ToJson([consumed |-> l - 1, nbad |-> nbad, bad |-> bad])>>)
